@@ -16,7 +16,7 @@ RULE = ("per value a family of alternative valid encodings is produced by the re
         "consume everything and give the reference DER; non-trivial = at least one non-canonical decision was taken; "
         "distinct by (type, value, syntax, decisions)")
 SYN = ["ber", "ber", "ber", "uper", "oer", "xer"]
-XER_ENABLED = {"xer-ws", "xer-ws-empty", "xer-selfclose"}
+XER_ENABLED = {"xer-ws", "xer-ws-empty", "xer-selfclose", "xer-unknown-ext", "xer-unknown-ext-form"}
 
 KNOWN_CLASSES = {
     # der_encoder.c: ASN1_DER_MAX_TAGS_COUNT 4 ("System limit on tags count")
@@ -47,6 +47,16 @@ def known_skip(feats, syn, used):
 def strategy(mod, t, cfg, feats):
     return st.tuples(gen.values(mod, t, cfg), st.sampled_from(SYN),
                      st.lists(st.integers(0, 1 << 16), min_size=0, max_size=60))
+
+
+def boundary_cases(mod, t):
+    """catalogue types: every boundary value in the canonical form of every syntax, and with one non-canonical draw"""
+    out = []
+    for v in gen.boundary_values(mod, t):
+        for syn in sorted(set(SYN)):
+            out.append((v, syn, []))
+        out.append((v, "ber", [1, 0, 1, 1, 0, 2, 1]))
+    return out
 
 
 def value_of(x):
@@ -149,6 +159,7 @@ def main(argv):
     return runner.run_module_check(
         PID, "exploration", RULE, valcheck.worker, lambda case: valcheck.replay_case(sys.modules[__name__], case), argv,
         n_modules=(40, 400), n_values=(50, 150), extra_worker_args=("vf.c03",),
+        extra_modules=[m for m in gen.catalogue() if m.name in ("CatBig", "CatChoice", "CatChoiceI")],
         assumptions=["the variant generators only take decisions the standards allow (X.690 8.x, X.691 19.5/22, X.696 "
                      "BASIC-OER, X.693 white space between elements); XER element naming is taken from the library's "
                      "own CANONICAL-XER output and only the layout is varied"])
